@@ -54,7 +54,7 @@ def gen_ops(ctx):
     def rnd(lo, hi): return lo + (hi - lo) * (r.below(1 << 30) / float(1 << 30))
     def b32(x): return str(struct.unpack("<I", struct.pack("<f", float(x)))[0])
     # --- constant and two-level sources at OFF-grid points (decimal, sevenths, random): all neighbours (nearly) equal, so the
-    #     rounding of the float weights is visible in the result (finding C17-bilinear-truncates-below-min)
+    #     rounding of the float weights is visible in the result (finding C17-bilinear-truncates-below-min, fixed by 056e54b)
     ops.append("bilc g8 d 8 8 c 255 %s %s" % (bits(3.1452003430004312), bits(0.023078170235551899)))     # the Lean witness
     ops.append("bilc g8 f 8 8 c 255 %s %s" % (b32(6.52790165), b32(5.04227161)))
     LV = {"g8": [255, 1, 128, 200], "rgb8": [255, 77], "rgb8p": [255, 3], "g16": [65535, 1000, 40000], "g8s": [-100, 127, -127, 50]}
@@ -121,8 +121,8 @@ ASSUME = [
     "sources are at least 1x1; point coordinates within the ptrdiff_t range (the casts in iround/ifloor are UB otherwise)",
     "scale_lanczos / lanczos_at (image_processing/scaling.hpp) are not part of the property's statement and are not modelled",
     "float evaluation of the bilinear sampler: proved RELATIVE TO FloatSpec only (Props/C17Float.lean, C17_float_*: weights sum within [1-6eps,1+7eps], lo-1 <= result <= hi); "
-    "known finding C17-bilinear-truncates-below-min: off the binary grid the truncating cast can return min-1 (constant 255 image -> 254, C17_float_truncates_below_min_witness); "
-    "reached by the `bilc` stratum (constant / two-level sources at decimal, seventh and random points), where the bit-exact Float / Float32 replay predicts it",
+    "finding C17-bilinear-truncates-below-min is fixed (056e54b, cast_channel_fn rounds to nearest): relative to FloatSpec the rounded result lies in [min, max] "
+    "(C17_float_bilinear_rounded_between); the `bilc` stratum (constant / two-level sources at decimal, seventh and random points; Float / Float32 replay) keeps watching it",
 ]
 
 def run(ctx, ops=None):
@@ -147,9 +147,12 @@ def run(ctx, ops=None):
         extra["grid_points"] = dict(toks)
         verdicts = vlib.run_driver(ctx, "drv_C17", "judge", [o + "\t" + r for o, r in zip(ops, impl)])
         extra["verdicts_by_kind"] = dict(sorted(collections.Counter("%s:%s" % (o.split()[0], v) for o, v in zip(ops, verdicts)).items()))
+        import re as _re
+        val_tok = _re.compile(r"^-?\d+(,-?\d+)*$")
         below = sum(1 for o, r in zip(ops, impl) if o.startswith("bilc ") and o.split()[5] == "c"
-                    for t in r.split() if t not in ("o", "X") and any(int(c) != int(o.split()[6]) for c in t.split(",")))
-        total = sum(1 for o, r in zip(ops, impl) if o.startswith("bilc ") and o.split()[5] == "c" for t in r.split() if t not in ("o", "X"))
+                    for t in r.split() if val_tok.match(t) and any(int(c) != int(o.split()[6]) for c in t.split(",")))
+        total = sum(1 for o, r in zip(ops, impl) if o.startswith("bilc ") and o.split()[5] == "c" for t in r.split() if val_tok.match(t))
+        extra["ops_aborted_in_gil"] = sum(1 for r in impl if r.startswith(("crash", "ub:", "assert", "harness-gave-up", "timeout")))
         extra["constant_source_samples"] = total
         extra["constant_source_samples_not_equal_to_the_constant"] = below
         taps = collections.Counter()
